@@ -146,7 +146,10 @@ def audit(modules):
     """#print-axioms style audit of every theorem of the given compiled modules.
     Returns (theorems: list of (module, name, axioms), bad: list)."""
     with Lock("lake"):
-        r = run(["lake", "env", "lean", "--run", "Audit.lean"] + list(modules), cwd=LEAN, timeout=1200)
+        exe = os.path.join(LEAN, ".lake", "build", "bin", "gvaudit")
+        if not os.path.exists(exe):
+            run(["lake", "build", "gvaudit"], cwd=LEAN, timeout=1200)
+        r = run(["lake", "env", exe] + list(modules), cwd=LEAN, timeout=1200)
     thms, bad = [], []
     for l in r.stdout.splitlines():
         m = re.match(r"THEOREM (\S+) (\S+) :\s*(.*)$", l)
@@ -285,7 +288,7 @@ class Check:
             self.cov["samples"].append(s)
 
     # -- proofs --------------------------------------------------------------
-    def proofs(self, gens, modules, extra_targets=("gvdriver",)):
+    def proofs(self, gens, modules, extra_targets=("gvdriver", "gvaudit")):
         """regenerate, build, audit. Returns True when every obligation is discharged."""
         ok = True
         tie_ok, broken = regen(gens)
@@ -295,7 +298,7 @@ class Check:
                 self.log(b)
                 self.cov["broken"].append({"kind": "translator", "what": b})
         built, failing, log = lake_build(list(modules) + list(extra_targets))
-        self.cov["checker_cmd"] = "cd /verif/lean && lake build %s && lake env lean --run Audit.lean %s" % (
+        self.cov["checker_cmd"] = "cd /verif/lean && lake build %s && lake env .lake/build/bin/gvaudit %s" % (
             " ".join(modules), " ".join(modules))
         if not built:
             ok = False
